@@ -13,8 +13,8 @@ func init() {
 	Register(&Property{
 		ID:    "C23",
 		Floor: 18,
-		Clauses: "QUIC packet numbers: packetNumberLength returns k exactly under pn-A < 2^(8k-1) (k=1..3, increasing, 4 otherwise), i.e. the chosen length leaves pn-A below half the k-byte window; " +
-			"appendPacketNumber, interpreted abstractly over bit provenance under each of those guards, appends exactly k bytes that are the low 8k bits of pn in big-endian order; " +
+		Clauses: "QUIC packet numbers: packetNumberLength returns k exactly under pn-A < 2^(8k-1) (k=1..3, increasing, 4 otherwise) on every constant-folded path of the function (a chain of comparisons with constants, or a scan over a local constant table unrolled), i.e. the chosen length leaves pn-A below half the k-byte window; " +
+			"appendPacketNumber obtains the length from packetNumberLength(pnum, largestAck) and, interpreted abstractly over bit provenance with that call answering k, appends exactly k bytes that are the low 8k bits of pn in big-endian order; " +
 			"the receiver accumulates the truncated number big-endian (shift by 8, or) before decodePacketNumber; decodePacketNumber computes win = 1<<(8*len), the candidate (expected &^ (win-1)) | truncated, " +
 			"and applies exactly the two RFC 9000 A.3 adjustments: +win under candidate <= expected-win/2 and candidate < 2^62-win, -win under candidate > expected+win/2 and candidate >= win.",
 		NotCovered: "the arithmetic theorem that these adjustments recover pn whenever |pn - expected| < win/2 (a fact about integers, not about the shape of the code).",
@@ -32,50 +32,91 @@ func c23(c *Ctx) {
 	if lenFn == nil || app == nil {
 		return
 	}
+	// The length function as a list of (result, path facts): every entry-to-return path with the
+	// constants of the path folded in (H3qConstPaths). A chain of comparisons with constants and a
+	// scan over a local constant table (`for i, lim := range limits { if d < lim { return i + 1 } }`,
+	// unrolled for the constant table length) give the same list. The checks below run on that list.
+	paths, err := H3qConstPaths(lenFn)
+	if err != nil {
+		c.Undecided("length-threshold", pl+": paths", "cannot enumerate the paths of the length function: "+err.Error())
+		return
+	}
 	seen := map[int]bool{}
-	for _, ret := range Returns().F(c.P, lenFn) {
-		r := ret.(*ssa.Return)
-		kc, ok := r.Results[0].(*ssa.Const)
-		if !ok {
+	byLen := map[int][]H3qPath{}
+	var order []int
+	for _, p := range paths {
+		if len(p.Known) != 1 || !p.Known[0] {
 			c.Undecided("length-threshold", pl+": non-constant return", "")
 			continue
 		}
-		k := int(kc.Int64())
+		k := int(p.Vals[0])
+		if byLen[k] == nil {
+			order = append(order, k)
+		}
+		byLen[k] = append(byLen[k], p)
 		seen[k] = true
-		fs := FactsAtInstr(ret)
-		// upper bound on $0-$1
-		ub := int64(-1)
-		for _, f := range fs {
-			if f.Atom.Kind == LE && len(f.Atom.L.Coef) == 2 && f.Atom.L.Coef["$0"] == 1 && f.Atom.L.Coef["$1"] == -1 {
-				if b := -f.Atom.L.K; ub < 0 || b < ub {
-					ub = b
-				}
-			}
-		}
-		lb := int64(0)
-		for _, f := range fs {
-			if f.Atom.Kind == LE && len(f.Atom.L.Coef) == 2 && f.Atom.L.Coef["$0"] == -1 && f.Atom.L.Coef["$1"] == 1 {
-				if f.Atom.L.K > lb {
-					lb = f.Atom.L.K
-				}
-			}
-		}
+	}
+	for _, k := range order {
 		cons := fmt.Sprintf("%s returns %d", pl, k)
-		if k < 4 {
-			want := int64(1)<<(8*uint(k)-1) - 1
-			c.Check(ub == want, "length-threshold", cons+fmt.Sprintf(" only under pn-A <= 2^%d-1 (half the %d-byte window)", 8*k-1, k), ret.Pos(),
-				"", fmt.Sprintf("upper bound on pn-A is %d, want %d", ub, want))
+		// every path that returns k must carry exactly the bounds of k
+		ubBad, lbBad := "", ""
+		var ubPos, lbPos token.Pos
+		for _, p := range byLen[k] {
+			// upper bound on $0-$1
+			ub := int64(-1)
+			for _, a := range p.Facts {
+				if a.Kind == LE && len(a.L.Coef) == 2 && a.L.Coef["$0"] == 1 && a.L.Coef["$1"] == -1 {
+					if b := -a.L.K; ub < 0 || b < ub {
+						ub = b
+					}
+				}
+			}
+			lb := int64(0)
+			for _, a := range p.Facts {
+				if a.Kind == LE && len(a.L.Coef) == 2 && a.L.Coef["$0"] == -1 && a.L.Coef["$1"] == 1 {
+					if a.L.K > lb {
+						lb = a.L.K
+					}
+				}
+			}
+			if k >= 1 && k < 4 {
+				if want := int64(1)<<(8*uint(k)-1) - 1; ub != want && ubBad == "" {
+					ubBad, ubPos = fmt.Sprintf("upper bound on pn-A is %d, want %d", ub, want), p.Ret.Pos()
+				}
+			}
+			if k > 1 && k <= 8 {
+				if want := int64(1) << (8*uint(k-1) - 1); lb != want && lbBad == "" {
+					lbBad, lbPos = fmt.Sprintf("lower bound on pn-A is %d, want %d", lb, want), p.Ret.Pos()
+				}
+			}
 		}
-		if k > 1 {
-			want := int64(1) << (8*uint(k-1) - 1)
-			c.Check(lb == want, "length-threshold", cons+" only when the shorter length does not suffice", ret.Pos(), "", fmt.Sprintf("lower bound on pn-A is %d, want %d", lb, want))
+		if k >= 1 && k < 4 {
+			c.Check(ubBad == "", "length-threshold", cons+fmt.Sprintf(" only under pn-A <= 2^%d-1 (half the %d-byte window)", 8*k-1, k), ubPos, "", ubBad)
 		}
-		// --- the encoder under this guard: exactly k big-endian bytes of pnum
-		it := &Interp{P: c.P, Assume: atomsOf(fs)}
+		if k > 1 && k <= 8 {
+			c.Check(lbBad == "", "length-threshold", cons+" only when the shorter length does not suffice", lbPos, "", lbBad)
+		}
+		if k < 1 || k > 4 {
+			c.Fail("length-threshold", cons, byLen[k][0].Ret.Pos(), "a packet number is encoded in 1 to 4 bytes")
+			continue
+		}
+		// --- the encoder given this length: exactly k big-endian bytes of pnum. The encoder obtains the
+		// length from packetNumberLength(pnum, largestAck) (the Has rule below); inside the interpretation
+		// that call is answered with k, the result the length function was just shown to have under the
+		// facts of these paths, and only for exactly those two arguments.
 		pn := InputBV("pn", 64, 62)
 		pn.Signed = true
 		la := InputBV("ack", 64, 62)
 		la.Signed = true
+		kk := k
+		it := &Interp{P: c.P, Assume: byLen[k][0].Facts, Hooks: map[string]func(args []AVal) (AVal, error){
+			pl: func(args []AVal) (AVal, error) {
+				if len(args) != 2 || args[0] != AVal(pn) || args[1] != AVal(la) {
+					return nil, ErrUndecided{Why: pl + " is not called with (pnum, largestAck)"}
+				}
+				return ConstBV(uint64(kk), 64, true), nil
+			},
+		}}
 		out, err := it.Call(app, []AVal{SymSlice("b"), pn, la})
 		if err != nil {
 			c.Fail("bits:encode", fmt.Sprintf("quic.appendPacketNumber length %d", k), app.Pos(), "abstract interpretation failed: "+err.Error())
